@@ -3,6 +3,7 @@
 This module provides base classes for functionality common to odML objects.
 """
 import copy
+import operator
 import posixpath
 
 try:
@@ -292,6 +293,18 @@ class Sectionable(BaseObject):
         if obj.parent is not None:
             obj.parent.remove(obj)
 
+    @staticmethod
+    def _check_position(position):
+        """
+        Makes sure that *position* can be used as a list index before anything is changed.
+
+        :param position: index at which an object should be inserted.
+        """
+        try:
+            operator.index(position)
+        except TypeError:
+            raise TypeError("Position '%s' is not a valid list index." % (position,))
+
     def insert(self, position, section):
         """
         Insert a Section at the child-list position. A ValueError will be raised,
@@ -305,6 +318,7 @@ class Sectionable(BaseObject):
             if section.name in self._sections:
                 raise ValueError("Section with name '%s' already exists." % section.name)
 
+            self._check_position(position)
             self._prepare_child(section)
             self._sections.insert(position, section)
             section._parent = self
